@@ -29,6 +29,7 @@ TABLE = [("G-CYC", 300), ("G-ACY", 300), ("G-LEX", 150), ("G-TIE", 100), ("G-SLO
 def plan(tier, seed):
     ctx = 20 if tier == "quick" else 250
     b = harness.split("G-DEADPAT", len(PATTERNS) * ctx, 124 if tier == "quick" else 1240, ctx=ctx)
+    b += harness.split("G-DEADZERO", 62 * (4 if tier == "quick" else 40), 124)
     return b + sc.plan_classes(tier, TABLE) + [{"cls": "REPOTESTS", "start": 0, "count": 1}]
 
 
@@ -112,6 +113,10 @@ def run_batch(batch):
         if cls == "G-DEADPAT":
             kind, pat = PATTERNS[idx % len(PATTERNS)]
             gd, _ = games.gen_dead(rng, kind, list(pat))
+            yield decide(gd, idx, cls, (kind, pat))
+        elif cls == "G-DEADZERO":
+            kind, pat = PATTERNS[idx % 62]          # probabilistic patterns only
+            gd, _ = games.gen_dead(rng, kind, list(pat), zero_prob=True)
             yield decide(gd, idx, cls, (kind, pat))
         else:
             gd = games.gen_class(rng, cls)
